@@ -16,6 +16,10 @@ type side struct {
 	name string
 	res  jsonapi.Resource
 	soft bool
+	// a Wrapper whose field maps were edited through GetType() no longer matches
+	// its struct; what Copy / New of it should look like is not something the
+	// property speaks about, so nothing is derived from it any more
+	edited bool
 }
 
 func observe(r jsonapi.Resource) (s string, p *core.Panic) {
@@ -162,8 +166,10 @@ func runC18(t *core.Tape, st *core.Stats) *core.Violation {
 
 	for i := 0; i < maxOps && t.More(stop); i++ {
 		if len(sides) < 4 && t.Bool(1, 8) {
-			if v := derive(sides[t.Draw(len(sides))]); v != nil {
-				return v
+			if from := sides[t.Draw(len(sides))]; !from.edited {
+				if v := derive(from); v != nil {
+					return v
+				}
 			}
 
 			continue
@@ -198,6 +204,10 @@ func runC18(t *core.Tape, st *core.Stats) *core.Violation {
 
 		if shared {
 			interesting++
+		}
+
+		if cls == "type-edit-via-GetType" && !target.soft {
+			target.edited = true
 		}
 
 		t.Logf("mutate %s: %s", target.name, desc)
@@ -423,10 +433,37 @@ func mutate(t *core.Tape, st *core.Stats, ts *world.TypeSpec, s *side) (desc, cl
 		st.Inc("probe:mutate-filter")
 
 		return fmt.Sprintf("Filter{%q = <same IDs>}.IsAllowed", n), "filter", true, p
-	default: // edit the type of a soft resource
+	default: // edit the type
 		sr, ok := r.(*jsonapi.SoftResource)
-		if !ok {
-			return "", "", false, nil
+		if !ok || t.Bool(1, 3) {
+			// through the Type value GetType returns, which holds the resource's own
+			// field maps (the only way to add or remove fields of a Wrapper's type)
+			st.Inc("probe:mutate-type-edit-via-GetType")
+
+			var desc string
+
+			p = core.Call(func() {
+				typ := r.GetType()
+
+				switch {
+				case len(attrNames) > 0 && t.Bool(1, 2):
+					n := attrNames[t.Draw(len(attrNames))]
+					typ.RemoveAttr(n)
+					desc = fmt.Sprintf("GetType().RemoveAttr(%q)", n)
+				case len(relNames) > 0 && t.Bool(1, 2):
+					n := relNames[t.Draw(len(relNames))]
+					typ.RemoveRel(n)
+					desc = fmt.Sprintf("GetType().RemoveRel(%q)", n)
+				case !ok:
+					// a Wrapper cannot gain a field its struct does not have; nothing to do
+				default:
+					n := fmt.Sprintf("viatype%d", t.Draw(3))
+					_ = typ.AddRel(jsonapi.Rel{FromType: typ.Name, FromName: n, ToType: typ.Name, ToOne: true})
+					desc = fmt.Sprintf("GetType().AddRel(%q)", n)
+				}
+			})
+
+			return desc, "type-edit-via-GetType", true, p
 		}
 
 		st.Inc("probe:mutate-type-edit")
